@@ -63,6 +63,7 @@ type world struct {
 	cli, srv *end
 	approved, cancelled bool
 	approvedHow string // early (before the hello phase) | pending (while the request was pending) | late
+	concurrent  bool   // stimuli were applied concurrently (a timer may have expired while a message was in flight)
 }
 
 const cliID, srvID = "ship-client", "ship-server"
@@ -344,6 +345,15 @@ func (w *world) safety(ev string) {
 	}
 	if w.cancelled && !w.approved && (w.cli.complete() || w.srv.complete()) {
 		simrt.Fail("C03|complete-after-cancel", "an endpoint completed although the user cancelled the pairing")
+	}
+	// while the user has not decided, both sides allow waiting for trust and every message is timely, nobody
+	// gives up: the prolongation cycle keeps the request pending (statement: success whenever approval comes
+	// "at any moment while pending" - so the request must stay pending until the user or a timer ends it)
+	if (w.c.trust == "approve" || w.c.trust == "cancel" || w.c.trust == "never") && !w.c.arbitrary && !w.concurrent && w.c.srvAllow && w.c.cliAllow && !w.approved && !w.cancelled {
+		if w.cli.W.Closed || w.srv.W.Closed {
+			simrt.Fail("C03|gave-up-while-pending", "an endpoint gave up although the user has not decided yet, waiting for trust is allowed on both sides and all messages were timely (cli=%s srv=%s, event %s)",
+				shipx.StateName(w.cli.state()), shipx.StateName(w.srv.state()), ev)
+		}
 	}
 }
 
@@ -691,6 +701,7 @@ func pairBody(c cfg, hist []string, a, b string) func() {
 			w.apply(ev)
 		}
 		simrt.Mark()
+		w.concurrent = true
 		// the timer ids have to be resolved before either stimulus runs
 		ta, tb := a, b
 		simrt.Go("stim-a", func() { w.fire(ta) })
